@@ -200,7 +200,9 @@ func (fu *folderUpload) FormattedPath() string {
 		pathData = pathData[3+segLen:]
 	}
 
-	return filepath.Join(pathSegments...)
+	// Anchor the item path at "/" so that ".." segments sent by the client are cleaned away and the
+	// result always stays below the folder it is later joined to.
+	return filepath.Join("/", filepath.Join(pathSegments...))
 }
 
 type FileHeader struct {
